@@ -179,6 +179,12 @@ def dump(
 
     if module_name not in ("", "__main__"):
         json_class = "{0}.{1}".format(module_name, json_class)
+    else:
+        # Local class: use the name it has been registered with
+        for local_name, local_class in config.classes.items():
+            if local_class is obj.__class__:
+                json_class = local_name
+                break
 
     # Keep the class name in the returned object
     return_obj = {"__jsonclass__": [json_class]}
